@@ -73,6 +73,12 @@ def lib_attr_hook(L, ref, name):
 def _dt_replace(L, dt, **kw):
     if set(kw) != {'tzinfo'}:
         raise Unsupported('datetime.replace(%s)' % sorted(kw))
+    # replace() keeps the wall-clock fields: for a datetime carrying a non-UTC offset the instant changes by that offset
+    if dt.tz not in (None, 'UTC'):
+        wall = getattr(dt, 'wall_us', None)
+        if wall is None:
+            raise Unsupported('replace(tzinfo=..) on a datetime with an unknown offset')
+        return mk_dt(wall, _tz(kw['tzinfo']))
     return mk_dt(dt.us, _tz(kw['tzinfo']))
 
 
@@ -215,7 +221,12 @@ def _strptime(L, x, fmt):
     match the format are outside the contracts that use this (precondition: well-formed records)."""
     from .models_io import CSV_INSTANT_US
     if isinstance(x, Opaque) and x.name == 'csvfield' and isinstance(fmt, str):
-        return mk_dt(CSV_INSTANT_US(x.row, x.col), 'OFFSET' if '%z' in fmt else None)
+        if '%z' in fmt:
+            from .models_io import CSV_UTC_OFFSET_US
+            d = mk_dt(CSV_INSTANT_US(x.row, x.col), 'OFFSET')
+            d.wall_us = CSV_INSTANT_US(x.row, x.col) + CSV_UTC_OFFSET_US(x.row, x.col)      # what the clock of that zone shows
+            return d
+        return mk_dt(CSV_INSTANT_US(x.row, x.col), None)
     raise Unsupported('strptime of %r' % type(x))
 
 
